@@ -65,7 +65,7 @@ PROPS = {
     'C05': {
         'contracts': [E + 'expect_loop', SB + 'expect_list', SB + 'expect_loop', 'pexpect.utils.select_ignore_interrupts',
                       'pexpect.utils.poll_ignore_interrupts', 'pexpect.fdpexpect.fdspawn.read_nonblocking',
-                      'pexpect.pty_spawn.spawn.read_nonblocking'],
+                      'pexpect.pty_spawn.spawn.read_nonblocking', 'pexpect.pty_spawn.spawn.waitnoecho'],
         'assumptions': [
             'ghost clock (DESIGN.md 5.4): time.time() reads it, time.sleep(d) advances it by d, read_nonblocking(size, t) advances it by at most max(t, 0) and raises TIMEOUT only after t has elapsed; pure computation costs nothing',
             'the deadline bound is proved on the ghost clock relative to the read_nonblocking interface contract; that each transport meets that interface (select/poll wrappers, waitnoecho, PopenSpawn polling) is not yet under contract in this check',
